@@ -5,12 +5,12 @@ CONSTANTS Ctx <- McCtx
  Devs = {}
  Kinds = {"xfer", "box", "reg", "topup", "unreg"}
  From = {"a1", "a2"}
- XTo = {"a1", "a2", "KR", "KX", "KS", "KD", "KO"}
+ XTo = {"a2", "KR", "KS", "KD", "KO"}
  XAmt = {100, 1000}
  Payers = {"a4"}
  Voters = {}
  Cands = {"a3", "a4"}
- RegAmt = {50, 300}
+ RegAmt = {300}
  AFrom = {}
  ATo = {}
  AAmt = {}
